@@ -84,6 +84,7 @@ inline RunResult run_forked(Engine &e,const J &plan,int timeout_s = 40){   // a 
 		try { r = e.run(plan); }
 		catch(std::exception const &ex){ r.fail("harness-exception",ex.what()); }
 		if(plan.geti("record_schedule")) r.tape = simk::recorded_schedule();
+		for(auto &kv:simk::probes()) r.counters["probe:" + kv.first] = (long long)kv.second;
 		{ const std::string &t = simk::trace_text(); if(!t.empty()) r.msg += "\nTRACE(tail):\n" + (t.size() > 12000 ? t.substr(t.size()-12000) : t); }
 		std::string s = result_json(r).str();
 		size_t off = 0; while(off < s.size()){ ssize_t n = ::write(pfd[1],s.data()+off,s.size()-off); if(n <= 0) break; off += n; }
@@ -233,7 +234,7 @@ inline int main_impl(int argc,char **argv,Engine &e,const char *engine_name){
 			J plan = e.generate(s,prop,thorough);
 			RunResult r;
 			if(e.fork_per_run(plan)) r = run_forked(e,plan);
-			else { try { r = e.run(plan); } catch(std::exception const &ex){ r.fail("harness-exception",ex.what()); } }
+			else { try { r = e.run(plan); } catch(std::exception const &ex){ r.fail("harness-exception",ex.what()); } for(auto &kv:simk::probes()) r.counters["probe:" + kv.first] = (long long)kv.second; }
 			runs++;
 			if(r.counters.t == J::OBJ) for(auto &kv:r.counters.o) sums[kv.first] += kv.second.as_int();
 			if(samples.a.size() < 2 || (r.nt && samples.a.size() < 3)){ std::string ps = plan.str(); if(ps.size() > 1500) ps = ps.substr(0,1500) + "..."; samples.push(J(ps)); }
